@@ -72,7 +72,7 @@ static GenOptions optionsFor(const std::string& profile, bool thorough) {
   GenOptions o;
   o.maxKeys = thorough ? 24 : 10;
   if (profile == "c03") { o.hostileNames = true; o.hostileValues = true; o.largeValues = thorough; }
-  if (profile == "c07" || profile == "c07e") { o.allowCycles = true; o.singleUse = false;   /* a single-use edge is deliberately forgotten by the engine, so "requires a cycle" is not well defined through it */ o.maxKeys = thorough ? 14 : 8; }
+  if (profile == "c07" || profile == "c07e") { o.allowCycles = true; o.discoverComputed = true; o.singleUse = false;   /* a single-use edge is deliberately forgotten by the engine, so "requires a cycle" is not well defined through it */ o.maxKeys = thorough ? 14 : 8; }
   if (profile == "c06") { o.maxKeys = 9; }
   if (profile == "c02") { o.modulusNum = 2; o.modulusDen = 3; o.oddModeWeight = 2; }   // identical recomputes, order-only and single-use edges are the point
   if (profile == "c20") { o.hostileNames = true; o.hostileValues = true; o.singleUse = false; }
@@ -113,13 +113,13 @@ static std::string histStr(const std::vector<Op>& h) {
 }
 
 
-// C07 enumeration: every directed graph on 3 keys with edges in {absent, static, dynamic} (729) and every directed graph on
+// C07 enumeration: every directed graph on 3 keys with edges in {absent, static, dynamic, discovered-at-completion} (4096) and every directed graph on
 // 4 keys with static edges (4096). Key 0 is an input that every computed key reads first (it is the trigger of dynamic edges).
-static const uint64_t kEnumA = 729, kEnumB = 4096;
+static const uint64_t kEnumA = 4096, kEnumB = 4096;
 static void enumProgram(uint64_t index, Program& p, std::vector<Op>& hist) {
   index %= (kEnumA + kEnumB);
-  unsigned n; std::vector<int> edge;   // 0 absent, 1 static, 2 dynamic; order: for i, for j != i
-  if (index < kEnumA) { n = 3; uint64_t x = index; for (int e = 0; e < 6; ++e) { edge.push_back((int)(x % 3)); x /= 3; } }
+  unsigned n; std::vector<int> edge;   // 0 absent, 1 static, 2 dynamic, 3 reported as a discovered dependency at completion; order: for i, for j != i
+  if (index < kEnumA) { n = 3; uint64_t x = index; for (int e = 0; e < 6; ++e) { edge.push_back((int)(x % 4)); x /= 4; } }
   else { n = 4; uint64_t x = index - kEnumA; for (int e = 0; e < 12; ++e) { edge.push_back((int)(x & 1)); x >>= 1; } }
   p = Program();
   KeyDef in; in.name = "in"; in.isInput = true; p.keys.push_back(in);
@@ -128,7 +128,7 @@ static void enumProgram(uint64_t index, Program& p, std::vector<Op>& hist) {
   for (unsigned i = 0; i < n; ++i) {
     KeyDef k; k.name = "k" + std::to_string(i); k.statics.push_back({0, Normal});
     std::vector<int> dynTargets;
-    for (unsigned j = 0; j < n; ++j) { if (j == i) continue; int kind = edge[e++]; if (kind == 1) k.statics.push_back({(int)j + 1, Normal}); else if (kind == 2) dynTargets.push_back((int)j + 1); }
+    for (unsigned j = 0; j < n; ++j) { if (j == i) continue; int kind = edge[e++]; if (kind == 1) k.statics.push_back({(int)j + 1, Normal}); else if (kind == 2) dynTargets.push_back((int)j + 1); else if (kind == 3) k.discKeys.push_back((int)j + 1); }
     for (int tgt : dynTargets) { Dyn d; d.onInput = 0; d.pmod = 2; d.prem = fire; d.req = {tgt, Normal}; k.dyns.push_back(d); }
     p.keys.push_back(k);
   }
@@ -232,6 +232,7 @@ static CaseResult runCase(const CaseSpec& spec, bool thorough) {
   uint32_t clientVersion = 1 + (uint32_t)r.below(5);
   vf::Rng sr(spec.schedSeed ? spec.schedSeed : r.next());
   res.programDesc = describe(prog); res.historyDesc = histStr(hist) + (useDB ? "[db]" : "[nodb]");
+  if (getenv("EM_TRACE")) fprintf(stderr, "program %s\nhistory %s\n", res.programDesc.c_str(), res.historyDesc.c_str());
   res.shapeHash = vf::fnv(res.programDesc + res.historyDesc);
   std::string dbPath = gDbDir + "/em-" + std::to_string(getpid()) + ".db";
   unlink(dbPath.c_str()); unlink((dbPath + "-journal").c_str());
